@@ -252,7 +252,7 @@ def run_one(h, res, prop, rule, fam, shape, n, sch, extra_observers, chunk, halv
 
     def describe(mu):
         return (f"graph '{shape}' of size {n} ({'a has ' + str(max(n, 3)) + ' links, U ' + str(max(n, 3)) + ' members, a chain ' + str(n) + ' links deep from c, a in ' + str(n) + ' universes, a Link naming ' + str(n) + ' vertices' if shape == 'hub' else (str(n) + ' parallel directed links a -> b and one undirected a -- b' if shape == 'par' else 'a chain t1 -> ... -> t' + str(n) + ' -> a of members of U in front of the base graph')}); "
-                f"caching {sch}; every accessor and query once; {mu.label if mu else '(no mutation)'}; query")
+                f"caching {sch}; every accessor and query once (the caller reverses and truncates every list it is handed); {mu.label if mu else '(no mutation)'}; query")
 
     def observe(g, mu, check=True, mine_first=False):
         nonlocal cnt
@@ -261,11 +261,14 @@ def run_one(h, res, prop, rule, fam, shape, n, sch, extra_observers, chunk, halv
             h.w.steps = 0
             out = o.do(g)
             if not check or prop not in o.props:
+                hist.scribble(out)
                 continue
             want = o.want(g.m)
             if want is DC:
+                hist.scribble(out)
                 continue
             got = out.value.v if out.kind == "return" and isinstance(out.value, hist._Plain) else hist.osig(out)
+            hist.scribble(out)
             ok = o.cmp(got, want) if o.cmp else got == want
             cnt += 1
             res.ob(ok, sig=("scale", shape, n, sch, mu.label if mu else None, o.name, idx >= len(warm) + len(mine)))
